@@ -42,6 +42,7 @@ package main
 // every tag of the queue has a chunk limit: its own, or the payload size when it has none - whatever
 // its method; and the tags of the queue carry the configured priorities and orders
 //@ func (*clientApp).init
+//@   loop 3 backedge assert order-default-is-written-back: qtags[i].Order == t.Order && t.Order != ""
 //@   loop 3 backedge assert every-tag-gets-a-chunk-limit: qtags[i] != nil && (t.ChunkSize != 0 ==> qtags[i].ChunkSize == t.ChunkSize) && (t.ChunkSize == 0 ==> qtags[i].ChunkSize == c.conf.BinSize) && qtags[i].Priority == t.Priority && qtags[i].LastDelay == t.LastDelay
 //@   modifies everything
 
